@@ -36,6 +36,9 @@ class H(desper.Handle):
     def __init__(self, label):
         self.label = label
 
+    def __bool__(self):     # a stored handle may be falsy: presence, not truth
+        return False
+
     def load(self):
         return Res(self.label)
 
@@ -46,6 +49,7 @@ class H(desper.Handle):
 class MH:
     def __init__(self, obj):
         self.obj = obj
+        self.home = None    # (id(model map), name) of the latest assignment
 
 
 class MM:
@@ -74,7 +78,8 @@ class Ctx:
 class TreeDriver:
     def __init__(self, name, value_kinds, rich_depth=1, layer_targets=('',),
                  clear_targets=('', 'a'), coarse=True, max_layers=2,
-                 key_depth=3):
+                 key_depth=3, aliases=0):
+        self.aliases = aliases
         self.keys = tuple(k for k in KEYS if k.count('/') < key_depth)
         self.max_layers = max_layers
         self.name = name
@@ -89,7 +94,8 @@ class TreeDriver:
                     populated_values_up_to_key_depth=self.rich_depth,
                     layer_targets=self.layer_targets,
                     clear_targets=self.clear_targets, coarse_key=self.coarse,
-                    max_layers_per_map=self.max_layers)
+                    max_layers_per_map=self.max_layers,
+                    max_aliased_insertions=self.aliases)
 
     def initial(self):
         ctx = Ctx()
@@ -98,6 +104,7 @@ class TreeDriver:
         ctx.model = MM(ctx.root)
         ctx.counter = 0
         ctx.detached = []       # (real child, was_visible) of the last clear
+        ctx.aliased = 0
         return ctx
 
     # -- values ------------------------------------------------------------
@@ -115,11 +122,13 @@ class TreeDriver:
             h1, m1 = self._handle(ctx)
             real['a'] = h1
             mm.layers[0]['a'] = m1
+            m1.home = (id(mm), 'a')
             sub = desper.ResourceMap()
             ms = MM(sub)
             h2, m2 = self._handle(ctx)
             sub['a'] = h2
             ms.layers[0]['a'] = m2
+            m2.home = (id(ms), 'a')
             real['b'] = sub
             mm.maps['b'] = ms
         elif kind == 'layered':
@@ -129,6 +138,8 @@ class TreeDriver:
             h2, m2 = self._handle(ctx)
             real['a'] = h2
             mm.layers = [{'a': m2}, {'a': m1}]
+            m1.home = (id(mm), 'a')
+            m2.home = (id(mm), 'a')
         return real, mm
 
     # -- alphabet ------------------------------------------------------------
@@ -140,6 +151,13 @@ class TreeDriver:
                 if kind in ('populated', 'layered') and depth > self.rich_depth:
                     continue
                 ops.append(('set', k, kind))
+        if ctx.aliased < self.aliases:
+            short = [k for k in self.keys if k.count('/') < 2]
+            for src in short:
+                if isinstance(self._lookup(ctx, src), MH):
+                    for dst in short:
+                        if dst != src and not dst.startswith(src + '/'):
+                            ops.append(('alias', src, dst))
         for t in self.clear_targets:
             if t == '' or isinstance(ctx.model.visible(t), MM):
                 ops.append(('clear', t))
@@ -158,9 +176,18 @@ class TreeDriver:
     def apply(self, ctx, op):
         kind = op[0]
         ctx.detached = []
-        if kind == 'set':
-            _, key, vkind = op
-            real, mv = self.make(ctx, vkind)
+        if kind in ('set', 'alias'):
+            if kind == 'alias':
+                # the same handle object is stored at a second place: its
+                # back-link follows the latest assignment
+                _, src, key = op
+                mv = self._lookup(ctx, src)
+                real, vkind = mv.obj, 'alias'
+                ctx.aliased += 1
+                ctx.hits['same_handle_at_two_places'] += 1
+            else:
+                _, key, vkind = op
+                real, mv = self.make(ctx, vkind)
             parts = key.split('/')
             try:
                 ctx.root[key] = real
@@ -187,6 +214,7 @@ class TreeDriver:
                 if any(last in layer for layer in mm.layers[1:]):
                     ctx.hits['handle_over_lower_layer'] += 1
                 mm.layers[0][last] = mv
+                mv.home = (id(mm), last)
             else:
                 lower = any(last in layer for layer in mm.layers[1:])
                 if mm.drop_handle(last):
@@ -199,7 +227,18 @@ class TreeDriver:
         elif kind == 'clear':
             real, mm = self._target(ctx, op[1])
             names = set(mm.maps) | {n for la in mm.layers for n in la}
-            ctx.detached = [(real.get(n), True) for n in sorted(names)]
+            ctx.detached = []
+            for n in sorted(names):
+                v = mm.visible(n)
+                if isinstance(v, MH):
+                    if v.home != (id(mm), n):
+                        continue    # stored here earlier, lives elsewhere now
+                    v.home = None
+                ctx.detached.append((real.get(n), True))
+            for layer in mm.layers:
+                for n, h in layer.items():
+                    if h.home == (id(mm), n):
+                        h.home = None
             if len(mm.layers) > 1:
                 ctx.hits['clear_layered'] += 1
             ctx.hits['clear'] += 1
@@ -311,10 +350,10 @@ class TreeDriver:
                                     f'map, get returned {_show(got, sent)}',
                                     **feats)
                 obs.append('m')
-        self._links(ctx.model, m, '')
+        self._links(ctx.model, m, '', ctx.aliased > 0)
         return tuple(obs)
 
-    def _links(self, mm, real, path):
+    def _links(self, mm, real, path, ctx_aliased=False):
         for name, child in mm.maps.items():
             rc = real.get(name)
             where = f'{path}/{name}'.lstrip('/')
@@ -325,7 +364,7 @@ class TreeDriver:
                     f'{"the containing map" if rc.parent is real else rc.parent!r}'
                     f', key {rc.key!r}', node='map',
                     implicit=child.obj is None, shadowed=False)
-            self._links(child, rc, where)
+            self._links(child, rc, where, ctx_aliased)
         for depth, layer in enumerate(mm.layers):
             for name, h in layer.items():
                 shadowed = any(name in up for up in mm.layers[:depth])
@@ -338,12 +377,15 @@ class TreeDriver:
                             'shadowed_handle_stays_beneath',
                             f'handle shadowed at {where!r} is no longer in '
                             f'layer {depth}')
+                if h.home != (id(mm), name):
+                    continue        # replaced, cleared or re-assigned elsewhere
                 if h.obj.parent is not real or h.obj.key != name:
                     raise Violation(
                         'backlinks',
                         f'handle at {where!r} (layer {depth}): parent '
                         f'{h.obj.parent!r}, key {h.obj.key!r}', node='handle',
-                        implicit=False, shadowed=shadowed)
+                        implicit=False, shadowed=shadowed,
+                        stored_twice=ctx_aliased)
 
     # -- canonical key -------------------------------------------------------------
     def key(self, ctx):
@@ -388,7 +430,8 @@ def drivers(tier):
         return {
             'depth2-fixpoint': (TreeDriver(
                 'depth2-fixpoint', kinds, rich_depth=1, layer_targets=('', 'a'),
-                key_depth=2), dict(max_states=300000, time_budget=200)),
+                key_depth=2, aliases=1),
+                dict(max_states=300000, time_budget=200)),
             'depth3-bounded': (TreeDriver(
                 'depth3-bounded', kinds, rich_depth=1, layer_targets=('',)),
                 dict(max_depth=3)),
@@ -396,7 +439,7 @@ def drivers(tier):
     return {
         'depth2-fixpoint': (TreeDriver(
             'depth2-fixpoint', kinds, rich_depth=2, layer_targets=('', 'a'),
-            key_depth=2, max_layers=3),
+            key_depth=2, max_layers=3, aliases=1),
             dict(max_states=3000000, time_budget=1500)),
         'depth3-fixpoint': (TreeDriver(
             'depth3-fixpoint', ('handle', 'empty', 'layered'), rich_depth=1,
@@ -414,8 +457,9 @@ def drivers(tier):
 def run(tier, rep):
     rep.rule = RULE
     rep.assumptions += [
-        'each value object is inserted once; cycles and custom split_char '
-        'are outside the alphabet',
+        'maps are inserted once; one handle may be stored at a second place '
+        '(its back-link follows the latest assignment); cycles and custom '
+        'split_char are outside the alphabet',
         'parent / key of objects that were replaced (not cleared) are free',
         'chained indexing "fails" with any exception (indexing into a loaded '
         'resource is not a KeyError)',
@@ -423,6 +467,7 @@ def run(tier, rep):
     rep.require_hits(implicit_map=1, implicit_map_over_handle=1,
                      handle_replaces_subtree=1, map_replaces_handle=1,
                      map_over_layered_handle=1, clear=1, clear_layered=1,
+                     same_handle_at_two_places=1,
                      add_layer=1, handle_over_lower_layer=1)
     for name, (driver, kw) in drivers(tier).items():
         kernel.explore(driver, rep, part=name, params=driver.params(), **kw)
